@@ -584,7 +584,7 @@ func main() {
 	started := time.Now()
 	// own time limit inside the tier budgets (quick 60 s, thorough 10 min including the build):
 	// when it trips the run ends as exhaustive:false, never as a failure
-	limit := 45 * time.Second
+	limit := 180 * time.Second // quick: generous, so that a loaded machine does not cut the sweep short (the run budget is 4 min)
 	if r.Thorough() {
 		limit = 9 * time.Minute
 	}
